@@ -88,20 +88,29 @@ RECURSIVE DecDigits(_)
 DecDigits(n) == IF n < 10 THEN <<48 + n>> ELSE Append(DecDigits(n \div 10), 48 + (n % 10))
 
 -----------------------------------------------------------------------------
-\* UTF-8 validity (RFC 3629: no overlongs, no surrogates, <= U+10FFFF)
-RECURSIVE Utf8From(_, _)
-Utf8From(s, p) ==
-  IF p > Len(s) THEN TRUE
-  ELSE LET c == s[p]
-           Cont(i) == i <= Len(s) /\ s[i] >= 128 /\ s[i] <= 191
-       IN IF c < 128 THEN Utf8From(s, p + 1)
-          ELSE IF c >= 194 /\ c <= 223 THEN Cont(p + 1) /\ Utf8From(s, p + 2)
-          ELSE IF c = 224 THEN p + 1 <= Len(s) /\ s[p + 1] >= 160 /\ s[p + 1] <= 191 /\ Cont(p + 2) /\ Utf8From(s, p + 3)
-          ELSE IF (c >= 225 /\ c <= 236) \/ c = 238 \/ c = 239 THEN Cont(p + 1) /\ Cont(p + 2) /\ Utf8From(s, p + 3)
-          ELSE IF c = 237 THEN p + 1 <= Len(s) /\ s[p + 1] >= 128 /\ s[p + 1] <= 159 /\ Cont(p + 2) /\ Utf8From(s, p + 3)
-          ELSE IF c = 240 THEN p + 1 <= Len(s) /\ s[p + 1] >= 144 /\ s[p + 1] <= 191 /\ Cont(p + 2) /\ Cont(p + 3) /\ Utf8From(s, p + 4)
-          ELSE IF c >= 241 /\ c <= 243 THEN Cont(p + 1) /\ Cont(p + 2) /\ Cont(p + 3) /\ Utf8From(s, p + 4)
-          ELSE IF c = 244 THEN p + 1 <= Len(s) /\ s[p + 1] >= 128 /\ s[p + 1] <= 143 /\ Cont(p + 2) /\ Cont(p + 3) /\ Utf8From(s, p + 4)
-          ELSE FALSE
-Utf8Valid(s) == Utf8From(s, 1)
+\* UTF-8 validity (RFC 3629: no overlongs, no surrogates, <= U+10FFFF), stated without
+\* recursion so that 64 KiB strings are cheap: every byte is either a lead byte whose
+\* continuation bytes follow it, or a continuation byte owned by the nearest preceding lead.
+Utf8Need(c) == IF c < 128 THEN 1 ELSE IF c >= 194 /\ c <= 223 THEN 2 ELSE IF c >= 224 /\ c <= 239 THEN 3
+               ELSE IF c >= 240 /\ c <= 244 THEN 4 ELSE 0
+IsCont(c) == c >= 128 /\ c <= 191
+\* admissible range of the byte following lead byte c
+Utf8Second(c, d) == CASE c = 224 -> d >= 160 /\ d <= 191
+                      [] c = 237 -> d >= 128 /\ d <= 159
+                      [] c = 240 -> d >= 144 /\ d <= 191
+                      [] c = 244 -> d >= 128 /\ d <= 143
+                      [] OTHER -> IsCont(d)
+Utf8Valid(s) ==
+  \/ \A i \in 1..Len(s) : s[i] < 128
+  \/ \A j \in 1..Len(s) :
+       LET c == s[j] IN
+       IF IsCont(c)
+       THEN \E k \in 1..3 : /\ j - k >= 1 /\ Utf8Need(s[j - k]) > k
+                            /\ \A m \in (j - k + 1)..(j - 1) : IsCont(s[m])
+       ELSE LET n == Utf8Need(c) IN
+            /\ n > 0
+            /\ j + n - 1 <= Len(s)
+            /\ \A m \in (j + 1)..(j + n - 1) : IsCont(s[m])
+            /\ n > 1 => Utf8Second(c, s[j + 1])
+
 =============================================================================
